@@ -19,4 +19,4 @@ def run(ck):
     ]
     fragment.run_all(ck, functional=True)
     # C11 reports only functional obligations; panic sites belong to C05
-    ck.obs = [o for o in ck.obs if o.label.startswith('C11/') or o.status in ('undecided', 'vacuous', 'inconclusive')]
+    ck.post_filter = lambda o: o.label.startswith('C11/') or o.status in ('undecided', 'vacuous', 'inconclusive')
